@@ -35,6 +35,51 @@ def find(segs, fc):
     return [b for (p, b, c) in B.walk_boxes(segs) if p[-1] == fc]
 
 
+
+def _exact_shift(cx, u, fl, e):
+    """`e` is E := <a dts of the taken queue> | E - K (overflow-checked, wrapping, or saturating when K is a first DTS), K := constant | write-once
+    state field.  Anything else (max/min/clamp, a K taken from another clock, a K that changes during the stream) is not a constant shift."""
+    from .. import guards
+    from . import c04
+    if e[0] == "load" and str(e[1]).endswith(".dts"):
+        return True, None
+    a = k = None
+    kind = None
+    if e[0] == "proj" and e[2] == "0" and e[1][0] == "bin" and e[1][1] == "SubWithOverflow":
+        a, k, kind = e[1][2], e[1][3], "checked"
+    elif e[0] == "bin" and e[1] in ("Sub", "SubUnchecked"):
+        a, k, kind = e[2], e[3], "checked"
+    elif e[0] == "call" and e[1] in ("core::num::wrapping_sub", "core::num::saturating_sub") and len(e[2]) == 2:
+        a, k, kind = e[2][0], e[2][1], e[1].rsplit("::", 1)[1]
+    else:
+        return False, "it is computed with `%s`, which is not a subtraction of a constant" % (e[1] if e[0] in ("call", "bin") else e[0])
+    ok, why = _exact_shift(cx, u, fl, a)
+    if not ok:
+        return ok, why
+    if k[0] == "call" and k[1].endswith("Option::unwrap_or") and k[2][1][0] == "const":
+        k = k[2][0]
+    if k[0] == "const":
+        return True, None
+    if not (k[0] == "load" and str(k[1]).startswith("arg1.")):
+        return False, "the subtrahend `%s` is neither a constant nor a state field" % sym.show(k)[:60]
+    fld = str(k[1]).split(".")[1]
+    stores = []
+    for p, b in cx.live.items():
+        if b.get("impl_self", "").startswith(FM):
+            for (sbb, si, (root, path), why_, node) in cx.st.sites.get(p, []):
+                if root == ("arg", 1) and path[:1] == (fld,) and why_.startswith("assign"):
+                    stores.append((p, b, sbb, node))
+    for (p, b, sbb, node) in stores:
+        sigs = [c04.signature(d_, t_) for (s_, d_, t_) in guards.guards_of(b, sbb) if guards.truth(t_)]
+        if "is_none(state:%s)" % fld not in sigs:
+            return False, "the subtrahend self.%s is stored in %s without the guard `still unset`: it is not one stream-wide constant" % (fld, p.rsplit("::", 1)[1])
+        if kind == "saturating_sub":
+            rv = sym.show(sym.expr_rv(b, node["rv"])) if "rv" in node else "?"
+            if rv not in ("std::option::Option::Some{dts}", "dts"):
+                return False, ("the subtraction saturates and the subtrahend self.%s is set from `%s`, not from the first decode time: when it exceeds a segment's first DTS the difference "
+                               "is clamped to 0 and is no longer the same constant for every segment" % (fld, rv[:60]))
+    return True, None
+
 def check(prog, run):
     run.rule("R5", "sample flags/times are the submitted ones: no field of a queued sample is overwritten between write and segment building")
     from . import c10, common as _common
@@ -111,6 +156,7 @@ def check(prog, run):
                 e = sym.expr(fb, t["args"][2])
                 srcs = sym.sources(e)
                 detail = sym.show(e)[:160]
+                ve_final = None
                 dep_taken = any(isinstance(x, tuple) and x and x[0] == "call" and x[1] == "std::mem::take" for x in sym.walk(e))
                 dep_dts = "dts" in detail
                 # a local copy of an element of the taken vector (`let first = samples[0].dts`)
@@ -147,8 +193,14 @@ def check(prog, run):
                                         from_taken = True
                                     if from_taken and "dts" in sym.show(ve):
                                         dep_taken, dep_dts = True, True
+                                        ve_final = ve
                                         detail += " where self.%s := %s" % (fld, sym.show(ve)[:100])
                 ok = dep_taken and dep_dts
+                if ok:
+                    shape_e = ve_final if ve_final is not None else e
+                    sh_ok, sh_why = _exact_shift(cx, u, fl, shape_e)
+                    run.check(sh_ok, "R2", "tfdt-exact-shift", "base decode time is the segment's first DTS, or that minus a write-once stream constant in exact arithmetic",
+                              "the base decode time (%s) is not `own first DTS - one stream-wide constant`: %s" % (sym.show(shape_e)[:120], sh_why), mir.loc_of(fb))
     run.check(ok, "R2", "tfdt-depends-on-own-segment", "base decode time = %s" % detail,
               "the base decode time written into segment k (%s) does not depend on any sample of segment k: it is computed from earlier segments only, so for a non-zero "
               "first DTS or irregular spacing it is not `first DTS - constant`" % detail, mir.loc_of(fb) if fb else None)
